@@ -40,6 +40,16 @@ MIX = (0.0, 0.05, 0.5, 0.5, 0.95, 1.0)
 
 def gen(rng, tier, index):
     kind, X, Y = pc.data(rng, tier, kinds=("tall",) if index % 40 == 7 else ("tall", "wide", "square", "deficient", "decay", "cliff"))
+    if index % 300 == 11:
+        # row counts just beyond a power of two (what a blocked accumulation of the n x n Gram matrix would split):
+        # 1025, 1026 or 2049 rows, few columns; the sample-space route then handles an n x n matrix
+        n_ = (1025, 1026, 1025, 2049)[(index // 300) % 4]
+        m_ = int(rng.integers(3, 7))
+        X = rng.normal(size=(n_, m_)) * np.logspace(0, -1, m_)
+        X = X - X.mean(axis=0)
+        Y = X @ rng.normal(size=(m_, 2)) + 0.3 * rng.normal(size=(n_, 2))
+        Y = Y - Y.mean(axis=0)
+        kind = "rows_1024q+1"
     unit = 1.0
     X0, Y0 = X, Y
     if rng.random() < 0.3:  # the same table in other units (exact powers of two), features and targets independently
@@ -75,6 +85,8 @@ def run(case, j):
     pc.use_routes(j, case)
     X, Y, reg, a, k = case["X"], case["Y"], case["reg"], case["mixing"], case["k"]
     n, m = X.shape
+    if n > 1024:
+        j.note("sample_space_routes_with_more_than_1024_rows")
     Zn = case["Znew"] if case.get("Znew") is not None else X[:2] * 1.1
     # new samples are compared across routes inside the row space of X: outside it the model is only defined through the
     # regression weights, whose null-space part is arbitrary for rank-deficient X (scikit-learn's solver, not skmatter)
